@@ -30,4 +30,19 @@ PROPS = {
             'thorough': [rc(60000, W), fuzz(120, 4, max_len=12 + 4 * 64)],
         },
     ),
+    'C06': dict(
+        title='Provider lookups return exactly the live, non-withdrawn providers',
+        level='exploration',
+        technique='stateful model-based property testing under a harness-owned virtual clock (rapidcheck tapes + libFuzzer)',
+        design_ref='DESIGN.md 5/C06',
+        level_text='Generated add/withdraw/find/sweep/advance histories with mixed per-announcement TTLs are run against KademliaTable and an '
+                   'explicit reference model; the live provider set is compared after every operation, at exact expiry instants (deadline, +-1 ns).',
+        level_note='Trusted base: the reference model in harness/C06.cpp (written from the property statement) and the interposed clock. '
+                   'Ties at the 20-provider cut are resolved by observation (any minimum-expiry element may be dropped).',
+        assumptions=['steady_clock is the only time source of KademliaTable (interposed by the harness)'],
+        tiers={
+            'quick': [rc(4000)],
+            'thorough': [rc(12000, W), fuzz(180, 8, max_len=4 + 8 * 80)],
+        },
+    ),
 }
